@@ -1,8 +1,9 @@
 (** Model of the CMAF-ingest sender of cmd/livesim2/app (cmaf-ingester.go, api.go):
 
     1. [calcSegmentAvailabilityTime] (livesegment.go) with its float64 arithmetic evaluated bit for
-       bit in Coq's primitive binary64 floats ([availMS_float]) next to the exact rational value
-       ([availMS_ceil], the first millisecond at which [CheckTimeValidity] accepts the segment);
+       bit in Coq's primitive binary64 floats ([availMS_float]; both the current rounding math.Ceil
+       and the former truncation) next to the exact rational value ([availMS_ceil], the first
+       millisecond at which [CheckTimeValidity] accepts the segment);
     2. the session: [NewCmafIngester]'s [nrSegsToSend], [cmafIngester.start] as [start] (init
        segments, live edge, first availability time) followed by a step function [step] over the
        events of the main loop's [select] (timer, trigger = REST step, cancel = REST delete), with
@@ -51,8 +52,9 @@ Definition ceilF (f : float) : Z :=
   end.
 
 (** How the last step of calcSegmentAvailabilityTime turns float milliseconds into an integer:
-    [RTrunc] is [int64(x)] (the pinned code), [RCeil] is [int64(math.Ceil(x))] (the proposed
-    repair).  The correspondence harness reads which one the tree under test uses from the source. *)
+    [RCeil] is [int64(math.Ceil(x))] (the code since fix f4e8dbe), [RTrunc] is [int64(x)] (the code
+    before it: 1 ms early off the float grid).  The correspondence harness reads which one the tree
+    under test uses from its source, so that reverting the fix is seen as what it is. *)
 Inductive rounding := RTrunc | RCeil.
 
 (** The tick value [int(seg.EndTime)+wrapTime+mediaRef] of segment number [nr] (already a uint32). *)
@@ -72,11 +74,11 @@ Definition availTicks (r : rep) (loopMS : Z) (c : tcfg) (nr : Z) : res Z :=
     the correctly rounded binary64 value of atoMS/1000. *)
 Definition atoF (atoMS : Z) : float := PrimFloat.div (f_of_Z atoMS) (f_of_Z 1000).
 
-(** [int64((float64(E)/float64(ts) - ato) * 1000)] *)
+(** [int64(math.Ceil((float64(E)/float64(ts) - ato) * 1000))] (or plain [int64(...)] for [RTrunc]) *)
 Definition availFloatMS_r (rm : rounding) (E tsc atoMS : Z) : Z :=
   let x := PrimFloat.mul (PrimFloat.sub (PrimFloat.div (f_of_Z E) (f_of_Z tsc)) (atoF atoMS)) (f_of_Z 1000) in
   match rm with RTrunc => truncF x | RCeil => ceilF x end.
-Definition availFloatMS := availFloatMS_r RTrunc.
+Definition availFloatMS := availFloatMS_r RCeil.
 
 Definition availMS_float_r (rm : rounding) (r : rep) (loopMS : Z) (c : tcfg) (nr : Z) : res Z :=
   do E <- availTicks r loopMS c nr;
@@ -84,7 +86,7 @@ Definition availMS_float_r (rm : rounding) (r : rep) (loopMS : Z) (c : tcfg) (nr
   | None => Ok (startS c * 1000)
   | Some atoMS => Ok (availFloatMS_r rm E (ts r) atoMS)
   end.
-Definition availMS_float := availMS_float_r RTrunc.
+Definition availMS_float := availMS_float_r RCeil.
 
 (** Exact values: the availability instant is (E*1000 - atoMS*ts)/ts milliseconds. *)
 Definition availNumMS (E tsc atoMS : Z) : Z := E * 1000 - atoMS * tsc.
@@ -355,7 +357,7 @@ Definition mk_scfg_r (rm : rounding) (reps : list irep) (refr : rep) (loopMS seg
   {| sc_reps := reps; sc_ref := refr; sc_loopMS := loopMS; sc_segDurMS := segDurMS; sc_cfg := c;
      sc_timeline := timeline; sc_test := test; sc_dur := dur; sc_chunked := chunked;
      sc_avail := availMS_float_r rm refr loopMS c |}.
-Definition mk_scfg := mk_scfg_r RTrunc.
+Definition mk_scfg := mk_scfg_r RCeil.
 
 (** * 3. The cmafSource hand-over *)
 
